@@ -25,6 +25,7 @@
 #include "oneapi/tbb/blocked_nd_range.h"
 #include "oneapi/tbb/partitioner.h"
 #include "oneapi/tbb/task_arena.h"
+#include "oneapi/tbb/task_group.h"
 #include "oneapi/tbb/global_control.h"
 #include "../engine/drv/drv.h"
 
@@ -154,7 +155,8 @@ static std::string gen_each(Src& s) {
 std::string h_gen(Src& s) {
     int par = 2 + (int)s.weighted({ 4, 4, 3, 1 }); if (par == 5) par = 1;
     int mc = 2 + (int)s.weighted({ 4, 3, 3, 1 }); if (mc == 5) mc = 1;
-    std::string o = "cfg par=" + std::to_string(par) + " mc=" + std::to_string(mc) + "\n";
+    static const int NEST[] = { 0, 2, 3, 5 };
+    std::string o = "cfg par=" + std::to_string(par) + " mc=" + std::to_string(mc) + " nest=" + std::to_string(NEST[s.weighted({ 6, 1, 1, 2 })]) + "\n";
     int nops = 1 + (int)s.weighted({ 3, 1 });
     for (int k = 0; k < nops; k++) {
         switch (s.weighted({ 10, 3, 4, 2 })) {
@@ -176,6 +178,21 @@ struct Space {
 };
 static Space SP;
 static int g_work = 0;
+// cfg nest=<k>: every k-th body / functor invocation runs and waits for a tiny nested task_group while it is inside the body, so the thread may execute
+// a sibling subtask of the same loop meanwhile.  On the calling thread the nested task is enqueued into a helper arena (the wait cannot be satisfied from
+// the local pool); worker threads use a local task (workers waiting for another arena could use up the workers that arena needs).
+static int g_nest = 0; static long g_body_ctr = 0, n_nested = 0, n_remote_sub = 0, n_remote_done = 0, n_local_sub = 0, n_local_done = 0; static tbb::task_arena* g_helper = nullptr; static int g_nest_caller = -1;
+// The remote form is used for parallel_for only: parallel_for_each block tasks (and parallel_invoke) wait for their own children inside a task, so a worker
+// can sit in such a wait for an item the caller has stolen and is blocked in -- with the caller waiting for the helper arena that only this worker could
+// serve, that is a deadlock of the program, not of the library.
+static bool g_remote_ok = false;
+static void body_work() {
+    vs_work(g_work);
+    if (!g_nest || (++g_body_ctr % g_nest) != 0) return;
+    n_nested++; tbb::task_group tg;
+    if (g_helper && g_remote_ok && vs_self() == g_nest_caller) { n_remote_sub++; g_helper->enqueue(tg.defer([] { vs_work(2); n_remote_done++; })); } else { n_local_sub++; tg.run([] { vs_work(1); n_local_done++; }); }
+    tg.wait();
+}
 static long n_chunks = 0, n_chunks_other = 0, n_splits = 0, n_psplits = 0, n_loops = 0, n_items = 0, n_items_other = 0, n_fed = 0, n_nt_loops = 0;
 static std::set<std::string> g_flags;
 static int ARR[1 << 13];
@@ -258,7 +275,7 @@ static void judge_loop(const char* what) {
 template <class R> struct LoopBody {
     void operator()(const WR<R>& w) const {
         Chunk c{}; c.th = vs_self();
-        vs_work(g_work);
+        body_work();
         box_of(w.r, c);
         record_chunk(c, w.empty());
     }
@@ -327,7 +344,7 @@ static bool g_step_other = false;
 template <class I> struct StepFn {
     I first, step; uint64_t count;
     void operator()(I k) const {
-        int th = vs_self(); vs_work(g_work);
+        int th = vs_self(); body_work();
         uint64_t dlt = (uint64_t)k - (uint64_t)first, st = (uint64_t)step;
         if (sizeof(I) < 8) { dlt = (uint64_t)((long long)k - (long long)first); }
         if (dlt % st != 0 || dlt / st >= count) vs_violation("OUT-OF-RANGE", "parallel_for(first,last,step) called f(%lld), not first+j*step with 0<=j<%lu", (long long)k, (unsigned long)count);
@@ -371,7 +388,7 @@ static void op_step(const std::string& l) {
 struct Item { int id; };
 static std::vector<int> g_kids, g_first_kid, g_visit; static bool g_move = false; static int g_caller = 0; static bool g_other = false;
 static void visit_item(int id, tbb::feeder<Item>* f) {
-    int th = vs_self(); vs_work(g_work);
+    int th = vs_self(); body_work();
     if (id < 0 || id >= (int)g_visit.size()) vs_violation("OUT-OF-RANGE", "parallel_for_each body got item id %d, not in [0,%zu)", id, g_visit.size());
     if (++g_visit[id] > 1) vs_violation("RAN-TWICE", "parallel_for_each: item %d processed twice", id);
     n_items++; if (th != g_caller) { n_items_other++; g_other = true; }
@@ -407,7 +424,7 @@ static void op_each(const std::string& l) {
 }
 
 // ---- parallel_invoke
-struct InvFn { int id; void operator()() const { int th = vs_self(); vs_work(g_work); if (++g_visit[id] > 1) vs_violation("RAN-TWICE", "parallel_invoke: functor %d invoked twice", id); n_items++; if (th != g_caller) { n_items_other++; g_other = true; } } };
+struct InvFn { int id; void operator()() const { int th = vs_self(); body_work(); if (++g_visit[id] > 1) vs_violation("RAN-TWICE", "parallel_invoke: functor %d invoked twice", id); n_items++; if (th != g_caller) { n_items_other++; g_other = true; } } };
 template <size_t... I> static void inv(std::index_sequence<I...>) { tbb::parallel_invoke(InvFn{ (int)I }...); }
 static void op_invoke(const std::string& l) {
     int n = (int)kvl(l, "n", 2); g_work = (int)kvl(l, "work", 0);
@@ -426,21 +443,25 @@ static void op_invoke(const std::string& l) {
 
 void h_run(Case& c) {
     int par = 2, mc = 2; std::vector<std::string> ops;
-    for (auto& l : c.lines) { auto w = split_ws(l); if (w.empty()) continue; if (w[0] == "cfg") { par = (int)kvl(l, "par", 2); mc = (int)kvl(l, "mc", 2); } else ops.push_back(l); }
+    for (auto& l : c.lines) { auto w = split_ws(l); if (w.empty()) continue; if (w[0] == "cfg") { par = (int)kvl(l, "par", 2); mc = (int)kvl(l, "mc", 2); g_nest = (int)kvl(l, "nest", 0); } else ops.push_back(l); }
     if (par < 1 || par > 8 || mc < 1 || mc > 8) vs_inconclusive("BAD-CASE", "cfg");
     vs_begin(c.sched.c_str());
+    vs_on_deadlock([](const char* d) { vs_violation("DEADLOCK", "%s; nested waits: remote submitted %ld done %ld, local submitted %ld done %ld", d, n_remote_sub, n_remote_done, n_local_sub, n_local_done); });
     {
         tbb::global_control gc(tbb::global_control::max_allowed_parallelism, (size_t)par);
-        tbb::task_arena arena(mc);
+        tbb::task_arena arena(mc); tbb::task_arena helper(1, 0); g_helper = &helper; g_nest_caller = vs_self();
         arena.execute([&] {
             for (auto& l : ops) {
                 std::string k = split_ws(l)[0];
+                g_remote_ok = (k == "for" || k == "step");
                 if (k == "for") op_for(l); else if (k == "step") op_step(l); else if (k == "each") op_each(l); else if (k == "invoke") op_invoke(l);
                 else vs_inconclusive("BAD-CASE", "unknown op");
             }
         });
     }
+    g_helper = nullptr;
     vs_end();
+    if (n_nested) g_flags.insert("nested_wait_in_body"); vs_stat_add("n_nested_waits", n_nested);
     vs_stat_add("n_loops", n_loops); vs_stat_add("n_chunks", n_chunks); vs_stat_add("n_chunks_other", n_chunks_other); vs_stat_add("n_splits", n_splits); vs_stat_add("n_propsplits", n_psplits);
     vs_stat_add("n_items", n_items); vs_stat_add("n_items_other", n_items_other); vs_stat_add("n_fed", n_fed);
     if (n_psplits) g_flags.insert("proportional_split");
